@@ -2,6 +2,7 @@ mod checks_crash;
 mod checks_pure;
 mod checks_t;
 mod explore;
+mod forgery;
 mod report;
 mod sched;
 mod sim;
@@ -35,6 +36,7 @@ fn main() {
         "C02" => checks_t::c02(a.tier),
         "C03" => checks_crash::c03(a.tier),
         "C04" => checks_t::c04(a.tier),
+        "C06" => checks_t::c06(a.tier),
         "C07" => checks_t::c07(a.tier),
         "C08" => checks_t::c08(a.tier),
         "C09" => checks_t::c09(a.tier),
